@@ -324,10 +324,10 @@ class Clock:
 
 
 def block(fn: Callable | None = None, /, comment=None, attributes: dict | None = None):
-    if attributes is None:
-        attributes = {}
+    # use a copy, the dictionary of the caller is not modified
+    attributes = {} if attributes is None else {**attributes}
 
-    if comment is None:
+    if comment is not None:
         assert "comment" not in attributes, "comment attribute already set"
         attributes["comment"] = comment
 
@@ -372,8 +372,8 @@ def concurrent(
     if parent_prefix is None:
         parent_prefix = _NopContextManager()
 
-    if attributes is None:
-        attributes = {}
+    # use a copy, the dictionary of the caller is not modified
+    attributes = {} if attributes is None else {**attributes}
 
     if comment is not None:
         assert "comment" not in attributes, "comment attribute already set"
@@ -444,8 +444,8 @@ def _sequential_impl(
 
     is_coro = inspect.iscoroutinefunction(trigger)
 
-    if attributes is None:
-        attributes = {}
+    # use a copy, the dictionary of the caller is not modified
+    attributes = {} if attributes is None else {**attributes}
 
     if comment is not None:
         assert "comment" not in attributes, "comment attribute already set"
